@@ -8,6 +8,9 @@
    The marker grammar (MText.p_marker) is used as a black box: the marker text is any text the stand-alone marker parser accepts.
 
    Known gap D7 (kept as a finding, excluded by the hypotheses rq_no_d7 / rq_no_gap): a "===" clause directly followed by a comma.
+   Round 5 (second half of this file): the str round trip holds for EVERY constructed requirement (theorem 7', no rq_no_gap); D7 is
+   characterised exactly (theorem 13: decomposition under rq_d7_ok, rejection on the whole complementary class); theorem 2' states the
+   decomposition on the grammars (marker grammar RList, PEP 440 clause grammar wf_spelling); 3' links the clause set to SetsModel.
    The marker side of the str round trip (hypothesis rq_marker_rt of C08_str_roundtrip) is the round-trip clause of C09; it is discharged
    in C08_str_roundtrip_all by the marker domain's theorem MkRoundP.parsed_marker_roundtrip. *)
 From Coq Require Import List Arith NArith Bool Lia.
@@ -18,7 +21,8 @@ Require Import VParse SpecParse SpecSound SpecContains.
 Require Import VComplete VTop VTop2.
 Require Import ReqModel ReqSpec ReqScanP ReqTokP ReqListP ReqMarkP ReqParseP ReqSetP ReqTopP ReqEqP ReqSoundP ReqRoundP ReqPep440P ReqRoundFullP.
 Require Import MkLayoutP MkLexP SetsModel Sorted.
-Require Import ReqCanonP ReqSetsLinkP ReqClauseP ReqStrFormP ReqGrammarP ReqExactP.
+Require Import ReqCanonP ReqSetsLinkP ReqClauseP ReqStrFormP ReqGrammarP ReqExactP ReqMarkerEqP.
+Require MkEval.
 Open Scope N_scope.
 
 (* 1. however whitespace is laid out, the grammar recovers name, extras, the text of exactly the clause list, URL and the marker as the
@@ -220,6 +224,16 @@ Theorem C08_equal_requirements_sets_alike sa sb a b : Requirement sa = RqOk a ->
   (forall arg texts, set_filter A arg texts = set_filter B arg texts) /\ set_pre A = set_pre B.
 Proof. exact (equal_requirements_sets_alike sa sb a b). Qed.
 Print Assumptions C08_equal_requirements_sets_alike.
+
+(* ... and markers that evaluate alike in every environment (their strings are equal, and the string determines the evaluation) *)
+Theorem C08_equal_requirements_markers_alike sa sb a b : Requirement sa = RqOk a -> Requirement sb = RqOk b -> req_eq a b = true ->
+  match q_marker a, q_marker b with
+  | Some ma, Some mb => forall defaults ov, MkEval.evaluate ma defaults ov = MkEval.evaluate mb defaults ov
+  | None, None => True
+  | _, _ => False
+  end.
+Proof. exact (equal_requirements_markers_alike sa sb a b). Qed.
+Print Assumptions C08_equal_requirements_markers_alike.
 
 (* 6'. a marker after a URL needs separating whitespace - for EVERY layout of the requirement before it (blanks, extras):
        without whitespace the ";x" (x free of blanks) is part of the URL ... *)
